@@ -586,7 +586,7 @@ def assemble(rep, results, cover_results):
 def verify_function(registry, spec, tier, prop):
     """Serial convenience wrapper (used by debugging scripts)."""
     rep = explore_function(registry, spec, tier, prop)
-    timeout_ms = 10000 if tier == "quick" else 60000
+    timeout_ms = 20000 if tier == "quick" else 60000
     results = [("discharged", "simplify", 0.0, None) if q.get("trivial") else solve_text((q["smt2"], timeout_ms)) for q in rep.get("queries", [])]
     covers = [cover_text(c) for c in rep.get("covers", [])]
     return assemble(rep, results, covers)
